@@ -46,6 +46,10 @@ def features_for(spec, clause, detail, cand=None):
         for key in ("worker", "resource", "cumulative"):
             if detail.get(key):
                 f["resource_kind"] = "cumulative" if rs.cumulative_spec(spec, detail[key]) else "worker"
+        if detail.get("kind") in rs.LOGIC and detail.get("id") is not None:
+            for c, _top in rs.all_constraints(spec):
+                if c.get("id") == detail["id"]:
+                    f["aux_under_negation"] = aux_under_negation(c)
         cid = detail.get("id")
         if cid is not None and detail.get("kind"):
             for c, _top in rs.all_constraints(spec):
@@ -56,6 +60,23 @@ def features_for(spec, clause, detail, cand=None):
                         f["tasks_on_resource"] = min(2, sum(
                             1 for r in spec.get("requirements", []) if r["resource"] == c["resource"]))
     return f
+
+
+AUX_KINDS = {"TasksContiguous", "ScheduleNTasksInTimeIntervals", "UnorderedTaskGroup", "OrderedTaskGroup", "WorkLoad",
+             "ResourceTasksDistance", "ResourceNonDelay"}
+
+
+def aux_under_negation(c, negative=False):
+    """does a constraint whose encoding introduces auxiliary unknowns occur with negative
+    polarity (under Not, or under Xor) inside formula c?"""
+    k = c.get("kind")
+    if k in AUX_KINDS:
+        return negative
+    if k == "Not":
+        return aux_under_negation(c["arg"], True)
+    if k == "Xor":
+        return aux_under_negation(c["a"], True) or aux_under_negation(c["b"], True)
+    return any(aux_under_negation(o, negative) for o in rs.operands(c) if isinstance(o, dict))
 
 
 class Acc:
